@@ -113,7 +113,7 @@ PROPS["C01"] = dict(
     level_text="Kernel-checked (Props/C01.lean, Lemmas/CoreDP|CoreClose|CoreInv): for EVERY history, iteration order and driver answer stream respecting the "
                "fault model, every data-plane rule belongs to a live session that has it recorded (run_inv, induction over all event lists); Update/Remove/Query "
                "reach the driver only for recorded ids; Sess.Close withdraws every rule of the session whatever failed before (close_withdraws_all), hence "
-               "deletion / re-association / SEID-0 keep the invariant. Tie: S-ctl differential stream with per-event data-plane dumps + predicates on the implementation.",
+               "deletion / re-association / SEID-0 keep the invariant. Tie: S-ctl differential stream with per-event data-plane dumps + predicates on the implementation. reassociation_withdraws_rules — after RemoteNode.Reset no rule of any session of the node's set is left in the data plane (invariant + C05 reset_sweeps); the same is checked on the implementation by the specification-side predicate at every accepted re-association.",
     level_note="Trusted: Lean kernel; hand-written model Model/Core.lean (checked against the real PfcpServer on every run, not proved equal); "
                "Spec.DataPlane as the meaning of 'present in the data plane'; 'requested by a Create IE' is carried by the structure of the model "
                "(ids enter the maps only in the Create methods).",
